@@ -246,6 +246,56 @@ def _bfs_unit(backend: str) -> Partial:
     return p
 
 
+def _pair_unit(item: tuple) -> Partial:
+    """thorough: two invocations side by side — a request on one never changes the other (state =
+    pair of (status, owner); BFS to closure, every transition on a fresh pair after replaying the path)."""
+    backend, first_req = item
+    p = Partial()
+    env.reset_world()
+    app = env.make_app(backend, app_id=f"c01p{backend}")
+    task = tasks.bind(app, tasks.ident)
+    a0 = _observe(app, _new_inv(app, task))[:2]
+    start = (a0, a0)
+    paths = {start: []}
+    frontier = [start]
+    reqs = [(k, new, rid) for k in (0, 1) for new in STATUSES for rid in REQUESTERS]
+    first = True
+    while frontier:
+        nxt = []
+        for state in frontier:
+            for (k, new, rid) in reqs:
+                if first and (k, new, rid) != first_req and False:
+                    continue
+                ids = [_new_inv(app, task), _new_inv(app, task)]
+                for (kk, s_, r_) in paths[state]:
+                    _request(app, ids[kk], s_, r_)
+                before = [_observe(app, i) for i in ids]
+                if tuple(b[:2] for b in before) != state:
+                    raise RuntimeError(f"replay divergence reaching {state}")
+                hb = [_hist_len(app, i) for i in ids]
+                outcome = _request(app, ids[k], new, rid)
+                after = [_observe(app, i) for i in ids]
+                ha = [_hist_len(app, i) for i in ids]
+                p.count("transitions")
+                cur, owner = state[k]
+                _judge(p, "pair", backend, cur, owner, new, rid, before[k], outcome, after[k], hb[k], ha[k],
+                       {"kind": "pair", "backend": backend, "path": paths[state], "request": [k, new, rid]})
+                o = 1 - k
+                if after[o] != before[o] or ha[o] != hb[o]:
+                    p.violation({"clause": "request-on-one-invocation-changed-another", "backend": backend,
+                                 "from": cur, "to": new}, {"before": before, "after": after},
+                                {"kind": "pair", "backend": backend, "path": paths[state], "request": [k, new, rid]})
+                ns = tuple(a[:2] for a in after)
+                if ns not in paths:
+                    paths[ns] = paths[state] + [(k, new, rid)]
+                    nxt.append(ns)
+        frontier = nxt
+        first = False
+    p.sets["states"] = {("pair", s_) for s_ in paths}
+    p.count("traces_validated_against_impl", p.counters.get("transitions", 0))
+    return p
+
+
 def _svg_edges():
     try:
         import pynenc
@@ -278,11 +328,15 @@ def run(ctx: Ctx) -> None:
         if g0.get(k) != g1.get(k):
             ctx.violation({"clause": "backends-differ", "where": "sequence", "cell": k},
                           {"mem": g0.get(k), "sqlite": g1.get(k)}, {"kind": "sequence-both", "cell": k})
+    if ctx.thorough:
+        for part in par.pmap(_pair_unit, [(b, None) for b in env.BACKENDS]):
+            ctx.merge(part)
     svg = _svg_edges()
     ctx.extra["docs_svg_equals_frozen_spec"] = (svg == EDGES) if svg is not None else None
     ctx.rule = ("single step: every (current status or absent, owner in {none,r1,r2}) x (requested status, requester in "
                 "{r1,r2,no-id}) cell on both orchestrators, unreachable (status, owner) pairs planted directly; "
-                "sequences: BFS over all 42 requests from every reachable (status, owner) state until closure")
+                "sequences: BFS over all 42 requests from every reachable (status, owner) state until closure; thorough: the "
+                "same for a pair of invocations (84 requests per pair state, closure), a request on one must not change the other")
     ctx.assume("unreachable (status, owner) combinations are planted by writing the orchestrator's record directly")
     ctx.assume("when a request both lacks an edge and violates ownership either status error class is accepted")
     ctx.sample({"cell": ["RUNNING", "r1", "SUCCESS", "r2"], "expected": "InvocationStatusOwnershipError"})
